@@ -90,6 +90,65 @@ def norm_recip(t):
     return json.dumps(n(t), sort_keys=True)
 
 
+def norm_full(t):
+    """norm_recip plus flattening of sums nested in sums (a term whose key is itself a sum, with any numeric coefficient): two trees with
+    the same normal form differ only by re-canonicalisation choices the library is known to make inconsistently."""
+    import json
+    from fractions import Fraction as Fr
+
+    def num(x):
+        if x[0] == 'Integer':
+            return Fr(int(x[1]))
+        if x[0] == 'Rational':
+            return Fr(int(x[1]), int(x[2]))
+        return None
+
+    def mk(q):
+        return ['Integer', str(q.numerator)] if q.denominator == 1 else ['Rational', str(q.numerator), str(q.denominator)]
+
+    def flat(t):
+        if not isinstance(t, list):
+            return t
+        t = [t[0]] + [flat(a) for a in t[1:]]
+        if t[0] == 'Add':
+            coef = num(t[1])
+            if coef is None:
+                return t
+            terms = {}
+            ok = True
+
+            def addterm(key, c):
+                k = json.dumps(key, sort_keys=True)
+                terms[k] = (key, terms.get(k, (key, Fr(0)))[1] + c)
+            for term in t[2:]:
+                key, c = term[1], num(term[2])
+                if c is None:
+                    ok = False
+                    break
+                if key[0] == 'Add' and num(key[1]) is not None and all(num(x[2]) is not None for x in key[2:]):
+                    coef += c * num(key[1])
+                    for x in key[2:]:
+                        addterm(x[1], c * num(x[2]))
+                elif key[0] == 'Mul' and num(key[1]) is not None and len(key) == 3 and key[2][2] == ['Integer', '1'] and key[2][1][0] == 'Add' \
+                        and num(key[2][1][1]) is not None and all(num(x[2]) is not None for x in key[2][1][2:]):
+                    inner = key[2][1]
+                    cc = c * num(key[1])
+                    coef += cc * num(inner[1])
+                    for x in inner[2:]:
+                        addterm(x[1], cc * num(x[2]))
+                else:
+                    addterm(key, c)
+            if not ok:
+                return t
+            out = [['T', k, mk(c)] for k, c in terms.values() if c != 0]
+            out.sort(key=lambda x: json.dumps(x, sort_keys=True))
+            if not out:
+                return mk(coef)
+            return ['Add', mk(coef)] + out
+        return t
+    return norm_recip(flat(t))
+
+
 class C(VPCheck):
     prop = 'C11'
 
